@@ -56,7 +56,12 @@ pub struct ThrowInfo {
     pub crossed_opaque: bool,
     /// no catch block of some try accepted the value and it was thrown again from there
     pub rethrown: bool,
+    /// source texts of frames that belong to OTHER chunks (`koto.run` snippets); a call line
+    /// `FOREIGN_BASE + i` stands for line 1 of `foreign[i]`
+    pub foreign: Vec<String>,
 }
+
+pub const FOREIGN_BASE: u32 = 1 << 30;
 
 enum Abrupt {
     Throw(Box<ThrowInfo>),
@@ -94,6 +99,8 @@ pub struct Prediction {
     /// is thrown again is the TEXT of the error as the catch block saw it (possibly several
     /// lines), so context the host appends afterwards does not end up on the first line
     pub rethrown_runtime: bool,
+    /// see `ThrowInfo::foreign`
+    pub trace_foreign: Vec<String>,
     /// an alternative first line of the error that is accepted as well (see above)
     pub result_alt: Option<String>,
     /// ids of the tick sites in invocation order
@@ -142,6 +149,7 @@ impl Default for Prediction {
             io_ops: 0,
             storm_iterations: 0,
             rethrown_runtime: false,
+            trace_foreign: vec![],
             result_alt: None,
             tick_ids: vec![],
             fired: 0,
@@ -248,6 +256,7 @@ impl<'a> Model<'a> {
                     let mut lines = vec![t.origin_line];
                     lines.extend(t.call_lines.iter().copied());
                     m.out.trace_lines = Some(lines);
+                    m.out.trace_foreign = t.foreign.clone();
                 }
                 m.out.sig.push("uncaught".into());
             }
@@ -268,6 +277,7 @@ impl<'a> Model<'a> {
             call_lines: vec![],
             crossed_opaque: false,
             rethrown: false,
+            foreign: vec![],
         }))
     }
 
@@ -356,7 +366,13 @@ impl<'a> Model<'a> {
             Ok(v) => Ok(v),
             Err(Abrupt::Return(v)) => Ok(v),
             Err(Abrupt::Throw(mut t)) => {
-                if conduit.is_plain_frame() && !t.crossed_opaque {
+                if conduit == Conduit::KotoRun && !t.crossed_opaque {
+                    // the call sits on line 1 of the snippet's own chunk, the snippet is run
+                    // by the `koto.run` call on the statement's line
+                    t.call_lines.push(FOREIGN_BASE + t.foreign.len() as u32);
+                    t.foreign.push(format!("f{func}({a})"));
+                    t.call_lines.push(line);
+                } else if conduit.is_plain_frame() && !t.crossed_opaque {
                     if conduit == Conduit::Method {
                         // OBJ.m calls f from a one-line method: an extra frame on that line
                         t.crossed_opaque = true;
@@ -425,7 +441,7 @@ impl<'a> Model<'a> {
                 let r = self.invoke(func, 0, line, c.conduit)?;
                 Ok(5 + r.to_string().len() as i64)
             }
-            Conduit::Chain(..) => {
+            Conduit::Chain(..) | Conduit::Native2(_) => {
                 self.invoke(func, a, line, c.conduit)?;
                 self.invoke(func, a.wrapping_add(1), line, c.conduit)?;
                 Ok(0)
@@ -568,6 +584,15 @@ impl<'a> Model<'a> {
         }
     }
 
+    /// the first source line of a statement (0 = unknown)
+    fn stmt_line(&self, s: &Stmt) -> u32 {
+        self.printed
+            .stmt_line
+            .get(&(s as *const Stmt as usize))
+            .copied()
+            .unwrap_or(0)
+    }
+
     fn exec_stmt(&mut self, s: &Stmt, f: &mut Frame) -> Exec<()> {
         match s {
             Stmt::Mark(n) => self.out.markers.push(*n),
@@ -647,16 +672,20 @@ impl<'a> Model<'a> {
                 return Err(Abrupt::Return(x));
             }
             Stmt::Throw(ThrowKind::Str(n)) => {
-                // the line is not tracked for explicit throws: C12 uses fault points only
-                return Err(self.throw_stmt(Thrown::Str(format!("E{n}"))));
+                let line = self.stmt_line(s);
+                return Err(self.throw_stmt(Thrown::Str(format!("E{n}")), line));
             }
-            Stmt::Throw(ThrowKind::Typed(k, e)) => {
+            Stmt::Throw(ThrowKind::Typed(k, e)) | Stmt::Throw(ThrowKind::TypedLayout(k, e, _)) => {
                 let c = self.eval(e, f)?;
-                return Err(self.throw_stmt(Thrown::Typed(*k, c)));
+                // (a throw is reported on the line of the `throw` keyword, wherever its
+                // operand ends)
+                let line = self.stmt_line(s);
+                return Err(self.throw_stmt(Thrown::Typed(*k, c), line));
             }
             Stmt::Throw(ThrowKind::Num(e)) => {
                 let c = self.eval(e, f)?;
-                return Err(self.throw_stmt(Thrown::Num(c)));
+                let line = self.stmt_line(s);
+                return Err(self.throw_stmt(Thrown::Num(c), line));
             }
             Stmt::Try(t) => self.exec_try(t, f)?,
             Stmt::Dump(n) => self.dump(*n, f),
@@ -666,19 +695,42 @@ impl<'a> Model<'a> {
             Stmt::MapIndexBadKey => {
                 // index 0 must exist, otherwise the index itself is rejected first
                 let class = if f.m0.is_empty() { "invalid index (0)" } else { ERR_UNHASHABLE };
-                let mut a = self.throw(Thrown::Runtime(class.into()), 0, "MapIndexBadKey");
-                if let Abrupt::Throw(t) = &mut a {
+                let line = self.stmt_line(s);
+                let mut a = self.throw(Thrown::Runtime(class.into()), line, "MapIndexBadKey");
+                if let Abrupt::Throw(t) = &mut a
+                    && line == 0
+                {
                     t.crossed_opaque = true;
                 }
                 return Err(a);
             }
             Stmt::NativeOpFail(k) => {
-                let msg = crate::simlang::NATIVE_OP_FAILS[*k as usize].1;
-                let mut a = self.throw(Thrown::Runtime(msg.into()), 0, "NativeOpFail");
+                let (_, msg, extra_frames) = crate::simlang::NATIVE_OP_FAILS[*k as usize];
+                let line = self.stmt_line(s);
+                let mut a = self.throw(Thrown::Runtime(msg.into()), line, "NativeOpFail");
                 if let Abrupt::Throw(t) = &mut a {
-                    t.crossed_opaque = true;
+                    if line == 0 {
+                        t.crossed_opaque = true;
+                    }
+                    for _ in 0..extra_frames {
+                        t.call_lines.push(line);
+                    }
                 }
                 return Err(a);
+            }
+            Stmt::ImportStep(v, ok) => {
+                f.i[*v as usize] = 42;
+                if !*ok {
+                    self.out.error_occurred = true;
+                    self.out.sig.push("failed-import-caught".into());
+                }
+            }
+            Stmt::Tiny(v, k, bad) => {
+                f.i[*v as usize] = if *bad { -1 } else { crate::simlang::TINY[*k as usize].2 };
+                if *bad {
+                    self.out.error_occurred = true;
+                    self.out.sig.push(format!("tiny:{k}"));
+                }
             }
             Stmt::Storm(v, _, n) => {
                 // every iteration fails and is caught on the spot
@@ -753,10 +805,12 @@ impl<'a> Model<'a> {
         Ok(())
     }
 
-    fn throw_stmt(&mut self, thrown: Thrown) -> Abrupt {
-        let mut a = self.throw(thrown, 0, "throw");
-        if let Abrupt::Throw(t) = &mut a {
-            // explicit throw statements are excluded from the C12 line oracle
+    fn throw_stmt(&mut self, thrown: Thrown, line: u32) -> Abrupt {
+        let mut a = self.throw(thrown, line, "throw");
+        if let Abrupt::Throw(t) = &mut a
+            && line == 0
+        {
+            // the statement's line is not known (the model runs on a clone of the program)
             t.crossed_opaque = true;
         }
         a
@@ -811,6 +865,7 @@ impl<'a> Model<'a> {
                     // it is thrown again from the catch argument: the original position is gone
                     info.origin_line = 0;
                     info.call_lines.clear();
+                    info.foreign.clear();
                     info.crossed_opaque = true;
                     info.rethrown = true;
                 }
